@@ -8,6 +8,8 @@ import Compress.Meta.Codec
 import Compress.Proofs.Meta
 import Compress.Proofs.MetaLocate
 import Compress.Proofs.MetaSilent
+import Compress.Proofs.MetaConvStream
+import Compress.Proofs.MetaConvExample
 
 namespace Compress.Props.C16
 open Compress Compress.Meta
@@ -80,6 +82,43 @@ theorem C16_silent_in_deflate (buf : List UInt8) (final : FinalMode) (bits : Bit
         { out := out, verdict := .ok (total - rest.length + Compress.Flate.padTo8 (total - rest.length)) }
       else Compress.Flate.decodeBlocks total fuel out rest :=
   Compress.Proofs.MetaSilent.meta_block_silent buf final bits h total fuel out rest
+
+/-- M2, converse (block): whatever the meta DECODER accepts — not only what the
+    encoder writes: any code length that fits the symbol bits, any splitting of
+    the runs — is a whole number of bytes that the RFC 1951 specification reads,
+    wherever they stand in a stream and whatever follows them, as one complete
+    dynamic block with an empty body: no output, exactly the accepted bits
+    consumed, and the stream ends there iff the decoded mode is `FinalStream`. -/
+theorem C16_accepted_is_silent_deflate (bs : Bits) (blk : Block) (h : decodeBlock bs = .ok blk)
+    (total fuel : Nat) (out : Array UInt8) (rest : Bits) :
+    blk.consumed ≤ bs.length ∧ blk.consumed % 8 = 0 ∧
+    Compress.Flate.decodeBlocks total (fuel + 1) out (bs.take blk.consumed ++ rest) =
+      if blk.final = .fstream then
+        { out := out, verdict := .ok (total - rest.length + Compress.Flate.padTo8 (total - rest.length)) }
+      else Compress.Flate.decodeBlocks total fuel out rest :=
+  Compress.Proofs.MetaConv.accepted_block_silent bs blk h total fuel out rest
+
+/-- M2, converse (stream): if the meta reader accepts `bytes`, reading
+    `d.consumed` of them as `d.blocks` blocks, then the RFC 1951 specification
+    reads those bytes, followed by anything, as `d.blocks` complete blocks
+    without any output, and reports the end of the stream there iff the reader's
+    final mode is `FinalStream`. -/
+theorem C16_accepted_stream_is_silent_deflate (bytes : List UInt8) (d : Decoded)
+    (h : Compress.Meta.decode bytes = .ok d)
+    (total fuel : Nat) (out : Array UInt8) (rest : Bits) :
+    d.consumed ≤ bytes.length ∧ (d.final = .fstream → 1 ≤ d.blocks) ∧
+    Compress.Flate.decodeBlocks total (fuel + d.blocks) out (Bits.ofBytes (bytes.take d.consumed) ++ rest) =
+      if d.final = .fstream then
+        { out := out, verdict := .ok (total - rest.length + Compress.Flate.padTo8 (total - rest.length)) }
+      else Compress.Flate.decodeBlocks total fuel out rest :=
+  Compress.Proofs.MetaConv.accepted_stream_silent bytes d h total fuel out rest
+
+-- non-vacuity of the converse: the decoder accepts a block the encoder never writes
+-- (code length 4 / HCLEN 8 where the encoder takes 3 / HCLEN 10; zero run split 138 + 102)
+example : decodeBlock (Bits.ofBytes [4, 0, 135, 5, 0, 0, 200, 255, 223, 182, 247, 240]) =
+      .ok { payload := [], final := .fnil, consumed := 96 } ∧
+    ∀ buf final, encodeBlock buf final ≠ some (Bits.ofBytes [4, 0, 135, 5, 0, 0, 200, 255, 223, 182, 247, 240]) :=
+  ⟨Compress.Proofs.MetaConv.nonCanonical_accepted, Compress.Proofs.MetaConv.nonCanonical_not_encoded⟩
 
 -- non-vacuity: a footer payload really is encodable, as a single block, and decodes back
 example : (encode [0x58, 0x46, 0x00, 0x0a] .fstream).isSome = true := by decide
